@@ -178,7 +178,7 @@ def canonical_modulo_gradient_ids(text):
 
 def defs_sorted(text):
     """the document with the children of every <defs> sorted by id and nothing else touched (attribute order, white space and
-    digits stay as they are: lxml serialises what it parsed)"""
+    digits stay as they are: lxml serialises what it parsed); a document whose defs are already sorted is returned byte for byte"""
     root = etree.fromstring(text.encode() if isinstance(text, str) else text)
     for d in root.iter():
         if isinstance(d.tag, str) and _local(d) == "defs":
